@@ -301,95 +301,100 @@ theorem deserialize_serialize (b : B64) (hb : ∀ x, b.dec (b.enc x) = x) (versi
 
 /-! ### atomic save -/
 
-/-- An atomic save: at every crash point, including a torn write, the profile's config file (path 0)
-    holds the previous content or the complete new content. -/
+/-- An atomic save: at every crash point the profile's config file (path 0) holds the previous content
+    or the complete new content (buffered data that was not flushed is lost by the crash). -/
 theorem atomicSave_crash (ops : List FileOp) (h : AtomicSave ops = true) (new : Str) (fs : FS) (k : Nat) :
-    (applyOps new fs (ops.take k)) 0 = fs 0 ∨ (applyOps new fs (ops.take k)) 0 = some new := by
-  induction ops using AtomicSave.induct generalizing k with
+    (applyOps new fs (ops.take k)).files 0 = fs.files 0 ∨ (applyOps new fs (ops.take k)).files 0 = some new := by
+  induction ops using AtomicSave.induct generalizing k fs with
   | case1 rest ih =>
-    simp only [AtomicSave] at h
+    have h' : AtomicSave rest = true := by simpa [AtomicSave] using h
     cases k with
-    | zero => left; rfl
-    | succ k => simpa [applyOps, applyOp] using ih h k
+    | zero => left; simp [applyOps]
+    | succ k => simpa [applyOps, applyOp] using ih h' fs k
   | case2 t t' t'' s d =>
-    simp only [AtomicSave, Bool.and_eq_true, bne_iff_ne, beq_iff_eq] at h
-    obtain ⟨⟨⟨⟨h0, rfl⟩, rfl⟩, rfl⟩, rfl⟩ := h
-    have h0' := h0.symm
-    rcases k with _|_|_|_|_|k <;> simp [applyOps, applyOp, fsSet, h0']
+    simp only [AtomicSave, Bool.and_eq_true, beq_iff_eq, bne_iff_ne] at h
+    obtain ⟨⟨⟨⟨ht, rfl⟩, rfl⟩, rfl⟩, rfl⟩ := h
+    have ht' := Ne.symm ht
+    match k with
+    | 0 | 1 | 2 | 3 => left; simp [applyOps, applyOp, flush, fsSet, ht']
+    | k + 4 => right; simp [applyOps, applyOp, flush, fsSet, ht']
   | case3 t t' t3 t'' s d =>
-    simp only [AtomicSave, Bool.and_eq_true, bne_iff_ne, beq_iff_eq] at h
-    obtain ⟨⟨⟨⟨⟨h0, rfl⟩, rfl⟩, rfl⟩, rfl⟩, rfl⟩ := h
-    have h0' := h0.symm
-    rcases k with _|_|_|_|_|_|k <;> simp [applyOps, applyOp, fsSet, h0']
-  | case4 ops h1 h2 h3 =>
+    simp only [AtomicSave, Bool.and_eq_true, beq_iff_eq, bne_iff_ne] at h
+    obtain ⟨⟨⟨⟨⟨ht, rfl⟩, rfl⟩, rfl⟩, rfl⟩, rfl⟩ := h
+    have ht' := Ne.symm ht
+    match k with
+    | 0 | 1 | 2 | 3 | 4 => left; simp [applyOps, applyOp, flush, fsSet, ht']
+    | k + 5 => right; simp [applyOps, applyOp, flush, fsSet, ht']
+  | case4 t h1 h2 h3 =>
     exfalso
     unfold AtomicSave at h
     split at h
     · exact h1 _ rfl
     · exact h2 _ _ _ _ _ rfl
     · exact h3 _ _ _ _ _ _ rfl
-    · exact Bool.false_ne_true h
+    · exact absurd h (by decide)
 
+/-- … also when the crash tears the operation in progress (a flush that wrote only a prefix). -/
 theorem atomicSave_torn (ops : List FileOp) (h : AtomicSave ops = true) (new part : Str) (fs : FS) (k : Nat)
     (hk : k < ops.length) :
-    (applyTorn part (applyOps new fs (ops.take k)) (ops.getD k .mkdirs)) 0 = fs 0 ∨
-    (applyTorn part (applyOps new fs (ops.take k)) (ops.getD k .mkdirs)) 0 = some new := by
-  induction ops using AtomicSave.induct generalizing k with
+    (applyTorn new part (applyOps new fs (ops.take k)) (ops.getD k .mkdirs)).files 0 = fs.files 0 ∨
+    (applyTorn new part (applyOps new fs (ops.take k)) (ops.getD k .mkdirs)).files 0 = some new := by
+  induction ops using AtomicSave.induct generalizing k fs with
   | case1 rest ih =>
-    simp only [AtomicSave] at h
+    have h' : AtomicSave rest = true := by simpa [AtomicSave] using h
     cases k with
-    | zero => left; rfl
+    | zero => left; simp [applyOps, applyTorn, applyOp]
     | succ k =>
       have hk' : k < rest.length := by simpa using hk
-      simpa [applyOps, applyOp] using ih h k hk'
+      simpa [applyOps, applyOp] using ih h' fs k hk'
   | case2 t t' t'' s d =>
-    simp only [AtomicSave, Bool.and_eq_true, bne_iff_ne, beq_iff_eq] at h
-    obtain ⟨⟨⟨⟨h0, rfl⟩, rfl⟩, rfl⟩, rfl⟩ := h
-    have h0' := h0.symm
-    rcases k with _|_|_|_|k
-    all_goals first
-      | (simp at hk; done)
-      | simp [applyTorn, applyOps, applyOp, fsSet, h0']
+    simp only [AtomicSave, Bool.and_eq_true, beq_iff_eq, bne_iff_ne] at h
+    obtain ⟨⟨⟨⟨ht, rfl⟩, rfl⟩, rfl⟩, rfl⟩ := h
+    have ht' := Ne.symm ht
+    match k, hk with
+    | 0, _ | 1, _ | 2, _ => left; simp [applyOps, applyOp, applyTorn, flush, fsSet, ht']
+    | 3, _ => right; simp [applyOps, applyOp, applyTorn, flush, fsSet, ht']
+    | k + 4, hk => exfalso; have : k + 4 < 4 := hk; omega
   | case3 t t' t3 t'' s d =>
-    simp only [AtomicSave, Bool.and_eq_true, bne_iff_ne, beq_iff_eq] at h
-    obtain ⟨⟨⟨⟨⟨h0, rfl⟩, rfl⟩, rfl⟩, rfl⟩, rfl⟩ := h
-    have h0' := h0.symm
-    rcases k with _|_|_|_|_|k
-    all_goals first
-      | (simp at hk; done)
-      | simp [applyTorn, applyOps, applyOp, fsSet, h0']
-  | case4 ops h1 h2 h3 =>
+    simp only [AtomicSave, Bool.and_eq_true, beq_iff_eq, bne_iff_ne] at h
+    obtain ⟨⟨⟨⟨⟨ht, rfl⟩, rfl⟩, rfl⟩, rfl⟩, rfl⟩ := h
+    have ht' := Ne.symm ht
+    match k, hk with
+    | 0, _ | 1, _ | 2, _ | 3, _ => left; simp [applyOps, applyOp, applyTorn, flush, fsSet, ht']
+    | 4, _ => right; simp [applyOps, applyOp, applyTorn, flush, fsSet, ht']
+    | k + 5, hk => exfalso; have : k + 5 < 5 := hk; omega
+  | case4 t h1 h2 h3 =>
     exfalso
     unfold AtomicSave at h
     split at h
     · exact h1 _ rfl
     · exact h2 _ _ _ _ _ rfl
     · exact h3 _ _ _ _ _ _ rfl
-    · exact Bool.false_ne_true h
+    · exact absurd h (by decide)
 
 theorem atomicSave_complete (ops : List FileOp) (h : AtomicSave ops = true) (new : Str) (fs : FS) :
-    (applyOps new fs ops) 0 = some new := by
-  induction ops using AtomicSave.induct with
+    (applyOps new fs ops).files 0 = some new := by
+  induction ops using AtomicSave.induct generalizing fs with
   | case1 rest ih =>
-    simp only [AtomicSave] at h
-    simpa [applyOps, applyOp] using ih h
+    have h' : AtomicSave rest = true := by simpa [AtomicSave] using h
+    simpa [applyOps, applyOp] using ih h' fs
   | case2 t t' t'' s d =>
-    simp only [AtomicSave, Bool.and_eq_true, bne_iff_ne, beq_iff_eq] at h
-    obtain ⟨⟨⟨⟨h0, rfl⟩, rfl⟩, rfl⟩, rfl⟩ := h
-    have h0' := h0.symm
-    simp [applyOps, applyOp, fsSet, h0']
+    simp only [AtomicSave, Bool.and_eq_true, beq_iff_eq, bne_iff_ne] at h
+    obtain ⟨⟨⟨⟨ht, rfl⟩, rfl⟩, rfl⟩, rfl⟩ := h
+    have ht' := Ne.symm ht
+    simp [applyOps, applyOp, flush, fsSet, ht']
   | case3 t t' t3 t'' s d =>
-    simp only [AtomicSave, Bool.and_eq_true, bne_iff_ne, beq_iff_eq] at h
-    obtain ⟨⟨⟨⟨⟨h0, rfl⟩, rfl⟩, rfl⟩, rfl⟩, rfl⟩ := h
-    have h0' := h0.symm
-    simp [applyOps, applyOp, fsSet, h0']
-  | case4 ops h1 h2 h3 =>
+    simp only [AtomicSave, Bool.and_eq_true, beq_iff_eq, bne_iff_ne] at h
+    obtain ⟨⟨⟨⟨⟨ht, rfl⟩, rfl⟩, rfl⟩, rfl⟩, rfl⟩ := h
+    have ht' := Ne.symm ht
+    simp [applyOps, applyOp, flush, fsSet, ht']
+  | case4 t h1 h2 h3 =>
     exfalso
     unfold AtomicSave at h
     split at h
     · exact h1 _ rfl
     · exact h2 _ _ _ _ _ rfl
     · exact h3 _ _ _ _ _ _ rfl
-    · exact Bool.false_ne_true h
+    · exact absurd h (by decide)
 
 end Yow.Config
